@@ -682,7 +682,18 @@ fn structural(
             tails.push(labels_to_bytes(is_char, &t));
         }
     }
-    let methods = crate::auto::Method::for_kind(b.cfg.kind);
+    // the property's own search methods decide; other properties use every method of the kind
+    let own: Vec<crate::auto::Method> = match prop {
+        "C01" => vec![crate::auto::Method::Ovl, crate::auto::Method::OvlIt],
+        "C02" => vec![crate::auto::Method::Find, crate::auto::Method::FindIt],
+        "C05" => vec![crate::auto::Method::NoSuf, crate::auto::Method::NoSufIt],
+        _ => vec![],
+    };
+    let methods: &[crate::auto::Method] = if own.is_empty() || b.cfg.kind != Kind::Std {
+        crate::auto::Method::for_kind(b.cfg.kind)
+    } else {
+        &own
+    };
     for t in &tails {
         let mut hay = path.to_vec();
         hay.extend_from_slice(t);
